@@ -4,15 +4,23 @@ From Coq Require Import ZifyBool.
 Definition fully_guarded (P : dparams) : bool :=
   unpack_in_try P && unbox_in_try P && handler_in_try P && reply_encode_guarded P && exc_encode_guarded P.
 
+(* every outcome is answerable except an exception class the configuration marks for local propagation, on a tree that re-raises those *)
+Definition answerable (P : dparams) (o : outcome) : bool := match o with ORaiseMarked => negb (reraises_marked P) | _ => true end.
+
 (* exactly one response, bearing the request's own number; the handler runs at most once; nothing escapes *)
-Theorem serve_exactly_one P seq o : fully_guarded P = true ->
+Theorem serve_exactly_one P seq o : fully_guarded P = true -> answerable P o = true ->
   let r := serve_request P seq o in
   length (sent r) = 1%nat /\ (forall f, In f (sent r) -> frame_seq f = seq) /\ invoked r <= 1 /\ crashed r = false.
 Proof.
-  unfold fully_guarded. intros H. repeat (apply andb_true_iff in H as [H ?]).
+  unfold fully_guarded. intros H Ha. repeat (apply andb_true_iff in H as [H ?]).
   unfold serve_request. rewrite H, H0, H1, H2, H3.
-  destruct o as [| | |[]|[]]; cbn; repeat split; auto; intros f [<-|[]]; reflexivity.
+  destruct o as [| | |[]|[]|]; cbn in *; try (apply negb_true_iff in Ha; rewrite Ha); cbn; repeat split; auto; intros f [<-|[]]; reflexivity.
 Qed.
+
+(* the configuration's local-propagation switch: the handler ran, nothing is sent, the exception escapes the serving loop *)
+Theorem marked_exception_unanswered P seq : handler_in_try P = true -> reraises_marked P = true ->
+  let r := serve_request P seq ORaiseMarked in sent r = [] /\ crashed r = true /\ invoked r = 1%nat.
+Proof. intros H1 H2. unfold serve_request. rewrite H1, H2. repeat split. Qed.
 
 (* F2: a result the serializer rejects while encoding, with the reply built outside any guard *)
 Theorem unencodable_result_refuted P seq : reply_encode_guarded P = false ->
@@ -32,21 +40,24 @@ Lemma responses_app q a b : responses_for q (a ++ b) = (responses_for q a + resp
 Proof. unfold responses_for. now rewrite map_app, concat_app, filter_app, app_length. Qed.
 
 Theorem stream_exactly_one P reqs : fully_guarded P = true -> NoDup (map fst reqs) ->
+  Forall (fun qo => answerable P (snd qo) = true) reqs ->
   forall q o, In (q, o) reqs -> responses_for q (serve_all P reqs) = 1%nat
   /\ Forall (fun r => crashed r = false /\ invoked r <= 1) (serve_all P reqs).
 Proof.
-  intros HP. induction reqs as [|[q0 o0] t IH]; intros Hnd q o Hin; [contradiction|].
+  intros HP. induction reqs as [|[q0 o0] t IH]; intros Hnd Hans q o Hin; [contradiction|].
   cbn [map fst] in Hnd. inversion Hnd as [|? ? Hnotin Hnd']; subst.
-  destruct (serve_exactly_one P q0 o0 HP) as (Hlen & Hseq & Hinv & Hcr).
+  inversion Hans as [|? ? Ha0 Hans']; subst. cbn [snd] in Ha0.
+  destruct (serve_exactly_one P q0 o0 HP Ha0) as (Hlen & Hseq & Hinv & Hcr).
   assert (Hone : forall q', responses_for q' [serve_request P q0 o0] = if Z.eqb q0 q' then 1%nat else 0%nat).
   { intros q'. unfold responses_for. cbn [map concat]. rewrite app_nil_r.
     destruct (sent (serve_request P q0 o0)) as [|f [|g r]]; cbn in Hlen; try discriminate.
     cbn. rewrite (Hseq f (or_introl eq_refl)). destruct (Z.eqb q0 q'); reflexivity. }
   assert (Hzero : forall q', ~ In q' (map fst t) -> responses_for q' (serve_all P t) = 0%nat).
-  { clear -HP. induction t as [|[a b] t IH]; intros q' Hn; [reflexivity|].
+  { clear -HP Hans'. induction t as [|[a b] t IH]; intros q' Hn; [reflexivity|].
+    inversion Hans' as [|? ? Hab Hans'']; subst. cbn [snd] in Hab.
     cbn [serve_all]. change (serve_request P a b :: serve_all P t) with ([serve_request P a b] ++ serve_all P t).
-    rewrite responses_app. cbn [map fst] in Hn. rewrite IH by (intros X; apply Hn; now right).
-    destruct (serve_exactly_one P a b HP) as (Hlen & Hseq & _).
+    rewrite responses_app. cbn [map fst] in Hn. rewrite (IH Hans'') by (intros X; apply Hn; now right).
+    destruct (serve_exactly_one P a b HP Hab) as (Hlen & Hseq & _).
     unfold responses_for. cbn [map concat]. rewrite app_nil_r.
     destruct (sent (serve_request P a b)) as [|f [|g r]]; cbn in Hlen; try discriminate.
     cbn. rewrite (Hseq f (or_introl eq_refl)). destruct (Z.eqb_spec a q'); [exfalso; apply Hn; left; exact e|reflexivity]. }
@@ -55,9 +66,9 @@ Proof.
     rewrite responses_app, Hone. destruct Hin as [E|Hin].
     + injection E as -> ->. rewrite Z.eqb_refl. now rewrite Hzero.
     + assert (q0 <> q) by (intros ->; apply Hnotin; apply in_map_iff; exists (q, o); auto).
-      destruct (Z.eqb_spec q0 q); [contradiction|]. now destruct (IH Hnd' q o Hin).
+      destruct (Z.eqb_spec q0 q); [contradiction|]. now destruct (IH Hnd' Hans' q o Hin).
   - constructor; [split; auto|]. destruct t as [|[q1 o1] t']; [constructor|].
-    now destruct (IH Hnd' q1 o1 (or_introl eq_refl)).
+    now destruct (IH Hnd' Hans' q1 o1 (or_introl eq_refl)).
 Qed.
 
 (* ---- requester side ---- *)
